@@ -505,11 +505,18 @@ def gen_user_lut(rng, ident):
     return data, meta, featx, style
 
 
-def gen_setup(rng):
+def gen_setup(rng, lut=None):
     r = rng.random()
     if r < 0.08:
         return {}          # all defaults
     s = {}
+    if lut is not None and r < 0.22:
+        # the geometry the LUT was simulated for: the "nothing to scale" branch of the
+        # geometry conversion (with every way of giving the viscosity)
+        s["channel_width"] = float(lut.l0)
+        s["flow_rate"] = float(lut.q0)
+        s["px_um"] = rng.choice(np.array(PIXEL_SIZES, dtype=object))
+        return s
     s["channel_width"] = rng.choice(np.array(CHANNEL_WIDTHS, dtype=object)) \
         if rng.random() < 0.7 else float(rng.uniform(10, 40))
     s["flow_rate"] = float(rng.choice(FLOW_RATES)) if rng.random() < 0.7 \
@@ -805,7 +812,9 @@ def run_direct(ctx, idx):
     from vmon.model import c05_lut as M
     rng = ctx.rng(idx)
     lut_arg, lut, desc = build_lut(ctx, rng, idx)
-    setup = gen_setup(rng)
+    setup = gen_setup(rng, lut)
+    if setup and setup.get("channel_width") == lut.l0 and setup.get("flow_rate") == lut.q0:
+        ctx.count("setups_with_the_lut_reference_geometry")
     lw = setup.get("channel_width", 20.0)
     fq = setup.get("flow_rate", 0.16)
     px = setup.get("px_um", 0.34)
